@@ -2038,3 +2038,321 @@ twin('C08-twin-arms-order', 'C08',
        "            log.error(msg)\n"
        "        else:\n"
        "            raise RuntimeError(msg)\n")])
+
+
+# ----------------------------------------------------------------------
+# rules added after the seeded rounds (DESIGN.md section 15): each with a
+# behaviour-preserving twin
+# ----------------------------------------------------------------------
+
+# -- R-TILE ----------------------------------------------------------------
+mutant('C16-tile-window-off-axis', 'C16',
+       'column window of the dense min/max scan as wide as the row step',
+       [(P+'validation/utils.py',
+         "            c1 = min(x_dataset.shape[1], c0+chunk_size[1])\n"
+         "            chunk = x_dataset[r0:r1, c0:c1]\n"
+         "            chunk_min = chunk.min()",
+         "            c1 = min(x_dataset.shape[1], c0+chunk_size[0])\n"
+         "            chunk = x_dataset[r0:r1, c0:c1]\n"
+         "            chunk_min = chunk.min()")],
+       'R-TILE/window', '_get_minmax_from_dense')
+mutant('C16-tile-clamp-other-axis', 'C16',
+       'row window of the dense min/max scan clamped to the column count',
+       [(P+'validation/utils.py',
+         "        r1 = min(x_dataset.shape[0], r0+chunk_size[0])\n"
+         "        for c0 in range(0, x_dataset.shape[1], chunk_size[1]):\n"
+         "            c1 = min(x_dataset.shape[1], c0+chunk_size[1])\n"
+         "            chunk = x_dataset[r0:r1, c0:c1]\n"
+         "            chunk_min = chunk.min()",
+         "        r1 = min(x_dataset.shape[1], r0+chunk_size[0])\n"
+         "        for c0 in range(0, x_dataset.shape[1], chunk_size[1]):\n"
+         "            c1 = min(x_dataset.shape[1], c0+chunk_size[1])\n"
+         "            chunk = x_dataset[r0:r1, c0:c1]\n"
+         "            chunk_min = chunk.min()")],
+       'R-TILE/window/clamp', '_get_minmax_from_dense')
+mutant('C16-tile-step-other-axis', 'C16',
+       'rows of the dense min/max scan walked with the column chunk extent',
+       [(P+'validation/utils.py',
+         "    for r0 in range(0, x_dataset.shape[0], chunk_size[0]):\n"
+         "        r1 = min(x_dataset.shape[0], r0+chunk_size[0])\n"
+         "        for c0 in range(0, x_dataset.shape[1], chunk_size[1]):\n"
+         "            c1 = min(x_dataset.shape[1], c0+chunk_size[1])\n"
+         "            chunk = x_dataset[r0:r1, c0:c1]\n"
+         "            chunk_min = chunk.min()",
+         "    for r0 in range(0, x_dataset.shape[0], chunk_size[1]):\n"
+         "        r1 = min(x_dataset.shape[0], r0+chunk_size[1])\n"
+         "        for c0 in range(0, x_dataset.shape[1], chunk_size[1]):\n"
+         "            c1 = min(x_dataset.shape[1], c0+chunk_size[1])\n"
+         "            chunk = x_dataset[r0:r1, c0:c1]\n"
+         "            chunk_min = chunk.min()")],
+       'R-TILE/window/axis', '_get_minmax_from_dense')
+twin('C16-twin-tile-locals', 'C16',
+     'step and shape of the dense min/max scan held in locals',
+     [(P+'validation/utils.py',
+       "    for r0 in range(0, x_dataset.shape[0], chunk_size[0]):\n"
+       "        r1 = min(x_dataset.shape[0], r0+chunk_size[0])\n"
+       "        for c0 in range(0, x_dataset.shape[1], chunk_size[1]):\n"
+       "            c1 = min(x_dataset.shape[1], c0+chunk_size[1])\n"
+       "            chunk = x_dataset[r0:r1, c0:c1]\n"
+       "            chunk_min = chunk.min()",
+       "    n_r = x_dataset.shape[0]\n"
+       "    d_r = chunk_size[0]\n"
+       "    for r0 in range(0, n_r, d_r):\n"
+       "        r1 = min(n_r, r0+d_r)\n"
+       "        for c0 in range(0, x_dataset.shape[1], chunk_size[1]):\n"
+       "            c1 = min(c0+chunk_size[1], x_dataset.shape[1])\n"
+       "            chunk = x_dataset[r0:r1, c0:c1]\n"
+       "            chunk_min = chunk.min()")])
+mutant('C09-tile-rows-window', 'C09',
+       'reference rows cut into windows one row shorter than the step',
+       [(P+'diff_exp/precompute_from_anndata.py',
+         "r0+rows_at_a_time)", "r0+rows_at_a_time-1)")],
+       'R-TILE/window', '_precompute_summary_stats_from_h5ad_and_lookup')
+
+# -- R-CURSOR --------------------------------------------------------------
+mutant('C13-cursor-unused', 'C13',
+       'transposition: write position taken from the row start instead of '
+       'the advancing cursor',
+       [(P+'utils/csc_to_csr.py',
+         "                buffer_0 = next_idx[unq_val]-d0\n",
+         "                buffer_0 = csr_indptr[unq_val]-d0\n")],
+       'R-CURSOR/used', 'transpose_sparse_matrix_on_disk')
+mutant('C13-cursor-skip-advance', 'C13',
+       'amalgamation: rows without entries skip the pointer bookkeeping',
+       [(P+'utils/sparse_utils.py',
+         "        n = indptr1-indptr0\n"
+         "        final_data[data_ct:data_ct+n]",
+         "        n = indptr1-indptr0\n"
+         "        if indptr0 == 0:\n"
+         "            continue\n"
+         "        final_data[data_ct:data_ct+n]")],
+       'R-CURSOR/', '_load_disjoint_csr')
+twin('C13-twin-cursor-skip-zero-amount', 'C13',
+     'skip the copy of an empty piece but keep recording and advancing',
+     [(P+'utils/sparse_utils.py',
+       "        final_data[data_ct:data_ct+n] = merged_data[indptr0:indptr1]\n"
+       "        final_indices[data_ct:data_ct+n] = "
+       "merged_indices[indptr0:indptr1]\n",
+       "        if n > 0:\n"
+       "            final_data[data_ct:data_ct+n] = "
+       "merged_data[indptr0:indptr1]\n"
+       "            final_indices[data_ct:data_ct+n] = "
+       "merged_indices[indptr0:indptr1]\n")])
+twin('C13-twin-cursor-temp', 'C13',
+     'transposition: cursor read into a local before the subtraction',
+     [(P+'utils/csc_to_csr.py',
+       "                buffer_0 = next_idx[unq_val]-d0\n",
+       "                here = next_idx[unq_val]\n"
+       "                buffer_0 = here-d0\n")])
+
+# -- R-SPACE ---------------------------------------------------------------
+mutant('C13-space-data-not-sorted', 'C13',
+       'transposition: the value array is not permuted with the rows',
+       [(P+'utils/csc_to_csr.py',
+         "                data_chunk = data_chunk[sorted_dex]\n", "")],
+       'R-SPACE/positions', 'transpose_sparse_matrix_on_disk')
+mutant('C13-space-cols-not-filtered', 'C13',
+       'transposition: the column array is not filtered with the rows',
+       [(P+'utils/csc_to_csr.py',
+         "            if indices_filter is not None:\n"
+         "                col_chunk = col_chunk[indices_filter]\n", "")],
+       'R-SPACE/positions', 'transpose_sparse_matrix_on_disk')
+mutant('C13-space-run-starts-after-filter', 'C13',
+       'transposition: run starts from the cumulated counts of the kept '
+       'rows only',
+       [(P+'utils/csc_to_csr.py',
+         "            for unq_val, unq_ct in zip(unq_val_arr, unq_ct_arr):\n"
+         "                j0 = np.searchsorted(row_chunk, unq_val, "
+         "side='left')\n",
+         "            j0_arr = np.cumsum(unq_ct_arr) - unq_ct_arr\n"
+         "            for unq_val, unq_ct, j0 in zip(unq_val_arr, "
+         "unq_ct_arr, j0_arr):\n")],
+       'R-SPACE/positions', 'transpose_sparse_matrix_on_disk')
+twin('C13-twin-space-run-starts-before-filter', 'C13',
+     'transposition: run starts from the cumulated counts of all runs, '
+     'then restricted to the kept rows',
+     [(P+'utils/csc_to_csr.py',
+       "            unq_val_arr = unq_val_arr[valid_dex]\n"
+       "            unq_ct_arr = unq_ct_arr[valid_dex]\n"
+       "            for unq_val, unq_ct in zip(unq_val_arr, unq_ct_arr):\n"
+       "                j0 = np.searchsorted(row_chunk, unq_val, "
+       "side='left')\n",
+       "            j0_arr = np.cumsum(unq_ct_arr) - unq_ct_arr\n"
+       "            j0_arr = j0_arr[valid_dex]\n"
+       "            unq_val_arr = unq_val_arr[valid_dex]\n"
+       "            unq_ct_arr = unq_ct_arr[valid_dex]\n"
+       "            for unq_val, unq_ct, j0 in zip(unq_val_arr, "
+       "unq_ct_arr, j0_arr):\n")])
+
+# -- R-COVER ---------------------------------------------------------------
+twin('C10-twin-cover-membership-guard', 'C10',
+     'tree builder: an already recorded link is not added again',
+     [(P+'taxonomy/utils.py',
+       "            tree[parent_level][this_parent].add(this_child)\n",
+       "            if this_child in tree[parent_level][this_parent]:\n"
+       "                continue\n"
+       "            tree[parent_level][this_parent].add(this_child)\n")])
+mutant('C10-cover-break-on-known-link', 'C10',
+       'tree builder: stop walking the levels of a row at the first link '
+       'already recorded',
+       [(P+'taxonomy/utils.py',
+         "            tree[parent_level][this_parent].add(this_child)\n",
+         "            if this_child in tree[parent_level][this_parent]:\n"
+         "                break\n"
+         "            tree[parent_level][this_parent].add(this_child)\n")],
+       'R-COVER/builder-records-every-link', 'links')
+twin('C09-twin-cover-skip-empty-chunk', 'C09',
+     'statistics worker: skip a chunk none of whose cells is labelled',
+     [(P+'diff_exp/precompute_from_anndata.py',
+       "        r_t0 = time.time()\n        chunk = iterator.get_chunk(",
+       "        if not any(cell_name_list[idx] in cell_name_to_output_row\n"
+       "                   for idx in range(chunk_spec[1], chunk_spec[2])):\n"
+       "            continue\n"
+       "        r_t0 = time.time()\n        chunk = iterator.get_chunk(")])
+mutant('C09-cover-skip-partly-labelled-chunk', 'C09',
+       'statistics worker: skip a chunk unless all of its cells are '
+       'labelled',
+       [(P+'diff_exp/precompute_from_anndata.py',
+         "        r_t0 = time.time()\n        chunk = iterator.get_chunk(",
+         "        if not all(cell_name_list[idx] in cell_name_to_output_row\n"
+         "                   for idx in range(chunk_spec[1], chunk_spec[2])):\n"
+         "            continue\n"
+         "        r_t0 = time.time()\n        chunk = iterator.get_chunk(")],
+       'R-COVER/every-chunk-counted', 'chunks')
+
+# -- merge init / gene order (C09) ----------------------------------------
+mutant('C09-merge-init-from-first-piece', 'C09',
+       'merged tables start from the first buffer and add it again',
+       [(P+'diff_exp/precompute_from_anndata.py',
+         "                    final_output[k] = np.zeros(\n"
+         "                        src[k].shape,\n"
+         "                        dtype=src[k].dtype)\n",
+         "                    final_output[k] = src[k][()]\n")],
+       'R-AXIS/additive-statistic/merge-init', 'init')
+twin('C09-twin-merge-init-zeros-like', 'C09',
+     'merged tables start from zeros built from the piece\'s shape only',
+     [(P+'diff_exp/precompute_from_anndata.py',
+       "                    final_output[k] = np.zeros(\n"
+       "                        src[k].shape,\n"
+       "                        dtype=src[k].dtype)\n",
+       "                    shp = src[k].shape\n"
+       "                    final_output[k] = np.zeros(shp, "
+       "dtype=src[k].dtype)\n")])
+mutant('C09-gene-sets-compared', 'C09',
+       'reference files compared by gene set instead of gene sequence',
+       [(P+'diff_exp/precompute_from_anndata.py',
+         "            if gene_names != these_genes:\n",
+         "            if set(gene_names) != set(these_genes):\n")],
+       'R-GUARD/same-gene-order', 'guard')
+
+# -- C15 column names -------------------------------------------------------
+mutant('C15-rename-by-level-label', 'C15',
+       'confidence column renamed by level label instead of readable name',
+       [(P+'utils/output_utils.py',
+         '            src_key = f"{readable_level}_{confidence_key}"\n',
+         '            src_key = f"{level}_{confidence_key}"\n')],
+       'R-SAMEVAL/csv-column-names', 'rename:old')
+twin('C15-twin-rename-prefix-local', 'C15',
+     'column names of the rename built by concatenation from a prefix',
+     [(P+'utils/output_utils.py',
+       '            src_key = f"{readable_level}_{confidence_key}"\n'
+       '            dst_key = f"{readable_level}_{confidence_label}"\n',
+       '            prefix = f"{readable_level}_"\n'
+       '            src_key = prefix + confidence_key\n'
+       '            dst_key = prefix + confidence_label\n')])
+
+# -- C18 denominators -------------------------------------------------------
+mutant('C18-mean-unguarded-division', 'C18',
+       'mean of a node divides by the raw cell count',
+       [(P+'diff_exp/score_utils.py',
+         "    mu = sum_arr/max(1, n_cells)\n", "    mu = sum_arr/n_cells\n")],
+       'R-POS/cell-count-denominator', 'aggregate_stats')
+twin('C18-twin-denominator-local', 'C18',
+     'guarded cell count held in a local',
+     [(P+'diff_exp/score_utils.py',
+       "    mu = sum_arr/max(1, n_cells)\n",
+       "    denom = max(1, n_cells)\n    mu = sum_arr/denom\n")])
+
+# -- C19 own directory ------------------------------------------------------
+mutant('C19-buffer-dir-fixed-name', 'C19',
+       'mapping buffer directory named after the query file',
+       [(P+'type_assignment/election.py',
+         "        buffer_dir = pathlib.Path(\n"
+         "                tempfile.mkdtemp(\n"
+         "                    dir=results_output_path,\n"
+         "                    prefix='results_buffer_'))\n",
+         "        buffer_dir = pathlib.Path(\n"
+         "                results_output_path) / 'results_buffer'\n"
+         "        buffer_dir.mkdir(parents=True, exist_ok=True)\n")],
+       'R-FRESH/listing/own-directory', 'run_type_assignment_on_h5ad_cpu')
+
+# -- C20 sanitiser ----------------------------------------------------------
+mutant('C20-substitute-clean-spelling', 'C20',
+       'substitution table keyed by the cleaned path',
+       [(P+'utils/cloud_utils.py',
+         "                substitutions[word] = safe_path\n",
+         "                substitutions[str(path)] = safe_path\n")],
+       'R-SAMEVAL/sanitizer-substitution', 'replaced-text')
+mutant('C20-exposure-parent-only', 'C20',
+       'is_exposed looks at the immediate parent only',
+       [(P+'utils/cloud_utils.py',
+         "    return is_exposed(input_path.parent)\n",
+         "    return input_path.parent.is_dir()\n")],
+       'R-MUST/exposure-walks-ancestors', 'ancestors')
+twin('C20-twin-exposure-loop', 'C20',
+     'is_exposed written as a loop over the ancestors',
+     [(P+'utils/cloud_utils.py',
+       "    return is_exposed(input_path.parent)\n",
+       "    for anc in input_path.parents:\n"
+       "        if anc in (pathlib.Path('.'), pathlib.Path('/')):\n"
+       "            return False\n"
+       "        if anc.is_file() or anc.is_dir():\n"
+       "            return True\n"
+       "    return False\n")])
+
+# -- C08 / C07 / C02 / C16 --------------------------------------------------
+mutant('C08-parents-root-first', 'C08',
+       'marker patching visits parents root first',
+       [(P+'type_assignment/marker_cache_v2.py',
+         "    all_parents = copy.deepcopy(taxonomy_tree.all_parents)\n"
+         "    all_parents.reverse()\n",
+         "    all_parents = copy.deepcopy(taxonomy_tree.all_parents)\n")],
+       'R-PROV/deepest-first', 'order')
+twin('C08-twin-parents-reversed-builtin', 'C08',
+     'marker patching iterates reversed(all_parents)',
+     [(P+'type_assignment/marker_cache_v2.py',
+       "    all_parents = copy.deepcopy(taxonomy_tree.all_parents)\n"
+       "    all_parents.reverse()\n",
+       "    all_parents = taxonomy_tree.all_parents[::-1]\n")])
+mutant('C07-sort-pairs-by-query', 'C07',
+       'marker pairs of a parent ordered by query position',
+       [(P+'type_assignment/marker_cache_v2.py',
+         "                sorted_dex = np.argsort(these_reference)\n",
+         "                sorted_dex = np.argsort(these_query)\n")],
+       'R-PROV/marker-order-independent-of-query', '')
+mutant('C07-drop-unknown-genes-before-cpm', 'C07',
+       'chunk cut to a column subset before it is normalised',
+       [(P+'type_assignment/election.py',
+         "        data = chunk[0]\n\n        data = CellByGeneMatrix(",
+         "        data = chunk[0][:, keep_idx]\n\n"
+         "        data = CellByGeneMatrix(")],
+       'R-TYPESTATE/all-genes-normalised', '')
+mutant('C02-vote-dtype-from-subset-size', 'C02',
+       'vote counter sized from the number of markers drawn',
+       [(P+'type_assignment/election.py',
+         "    vote_dtype = choose_int_dtype((0, bootstrap_iteration))\n",
+         "    vote_dtype = choose_int_dtype((0, n_bootstrap))\n")],
+       'R-CAP/vote-counter', '')
+twin('C02-twin-vote-dtype-fixed', 'C02',
+     'vote counter with a fixed wide integer type',
+     [(P+'type_assignment/election.py',
+       "    vote_dtype = choose_int_dtype((0, bootstrap_iteration))\n",
+       "    vote_dtype = np.int64\n")])
+mutant('C16-clip-before-lookup', 'C16',
+       'gene identifiers clipped at the first dot before the lookup',
+       [(P+'gene_id/gene_id_mapper.py',
+         "        for input_gene in gene_id_list:\n"
+         "            if self._is_valid(input_gene):\n",
+         "        for input_gene in self._post_process(gene_id_list):\n"
+         "            if self._is_valid(input_gene):\n")],
+       'R-PROV/lookup-by-given-name', '')
